@@ -842,6 +842,12 @@ func DistinctLeaves(d *DNode) *DNode {
 		case DStr:
 			i++
 			n.S = "s" + strconv.Itoa(i)
+		case DNull:
+			// a member whose value is null is a member like any other: every second null stays null
+			i++
+			if i%2 == 0 {
+				*n = *Num(float64(1000 + i))
+			}
 		default:
 			i++
 			*n = *Num(float64(1000 + i))
